@@ -1,7 +1,7 @@
 (* C19 — property theorems only.  Each is closed by `exact <lemma>` and followed by
    Print Assumptions; the check re-compiles this file on every run. *)
 From Coq Require Import List NArith ZArith Bool.
-From MW Require Import Common.Str C19.Gen_writers C19.Model C19.Proofs C19.ProofsCD C19.ProofsLife.
+From MW Require Import Common.Str C19.Gen_writers C19.Model C19.Proofs C19.ProofsCD C19.ProofsLife C19.ProofsCompose.
 Import ListNotations.
 
 (* `status nfkd r m w` is do_render_status after its two qinfo calls: r / m are the `_json()` snapshots of
@@ -88,10 +88,10 @@ Theorem C19_writers_header_safe : forall w ext ct,
 Proof. exact writer_fields_safe. Qed.
 Print Assumptions C19_writers_header_safe.
 
-(* Life cycle (own abstraction of qs.jobs.workq, tied by the harness; the composition with the C16 queue
-   model is not done — hence _partial): for EVERY sequence of push / pull / setinfo / finish / kill /
-   dropjobs / waitjobs / handletimeouts / dropdead operations on any job ids, the status command answers
-   according to how the render job of that writer got where it is. *)
+(* Life cycle over C19's OWN abstraction of qs.jobs.workq (one record per job id, full JSON values, a ghost phase; tied
+   to the real workq by the harness after every op of every history).  The same statement over the C16 queue model
+   is C19_reachable below; this one is kept (name unchanged) because its values are not coded: the failed response
+   carries the very error value, and "killed"/"timeout" are the literal strings. *)
 Theorem C19_reachable_partial : forall nfkd ops c w,
   known w ->
   let st := run ops in
@@ -116,6 +116,88 @@ Theorem C19_error_implies_done : forall ops id j,
 Proof. exact run_error_done. Qed.
 Print Assumptions C19_error_implies_done.
 
+(* ---------------------------------------------------------------------------------------------------------
+   Composition with the REAL queue model: coq/C16/Model.v (`Q`), the model of qs.jobs.workq + QPlugin + connection
+   life cycle under gevent scheduling that C16/C17/C18 are proved about.  Its values are coded (job names, error
+   strings, results, info dicts are numbers; error code 0 = "", 1 = "timeout", 2 = "killed"); the theorems hold for
+   EVERY decoding of the codes into JSON values under which exactly code 0 is a falsy error.  `qinfo16 .. s` is
+   rpc_qinfo on a state of that model, `QI.job_at s i` the job object registered under id i. *)
+
+(* invariant of the queue model over ALL its ops (Drop/Watchdog/Advance/Disconnect/RunLoop included; C16's own
+   inv_err covers only histories without Drop): a job with an error or a result is done *)
+Theorem C19_queue_error_implies_done : forall h i j,
+  QI.job_at (Q.run h Q.init) i = Some j -> (Q.j_err j <> Q.ENone \/ Q.j_res j <> None) -> Q.j_done j = true.
+Proof. exact QI.reachable_error_done. Qed.
+Print Assumptions C19_queue_error_implies_done.
+
+(* C19_reachable: for EVERY history of the queue model (any list of Add / StartPull / RunLoop / Finish / Kill / Tick /
+   Disconnect / Choice / Wait / Info / SetInfo / Stats / Advance / Drop / Watchdog from the empty queue), every
+   collection and every known writer, the status command answers according to the render job of THAT writer as the
+   queue holds it: absent (never added, dropped after its time-to-live, dropped by waitjobs) or not done (queued,
+   handed to a worker, running; then it has neither error nor result) -> progress; done with a truthy error
+   (failed, "killed", "timeout") -> failed with that error; done without / with a falsy error -> finished (or the
+   command raises, and then the job's result is malformed). *)
+Theorem C19_reachable :
+  forall (nfkd : str -> str) (code_of : str -> N) (dec_err dec_res dec_info : N -> pyval),
+  (forall n, truthy (dec_err n) = negb (n =? 0)%N) ->
+  forall h c w, known w ->
+    let s := Q.run h Q.init in
+    let q := qinfo16 code_of dec_err dec_res dec_info s in
+    let resp := do_render_status nfkd q c w in
+    let rs := q (render_jobid c w) in
+    let prog := Progress (progress_status rs (q (makezip_jobid c))) in
+    match QI.job_at s (Q.JName (code_of (render_jobid c w))) with
+    | None => resp = prog
+    | Some j =>
+        if Q.j_done j then
+          match Q.j_err j with
+          | Q.ENone => finished_or_malformed resp rs
+          | Q.EStr n => if (n =? 0)%N then finished_or_malformed resp rs else resp = Failed (dec_err n)
+          end
+        else Q.j_err j = Q.ENone /\ Q.j_res j = None /\ resp = prog
+    end.
+Proof. exact reachable_status16_full. Qed.
+Print Assumptions C19_reachable.
+
+(* never `finished` for a job that is absent, queued, running or failed -- over queue histories *)
+Theorem C19_finished_only_if_queue :
+  forall (nfkd : str -> str) (code_of : str -> N) (dec_err dec_res dec_info : N -> pyval),
+  (forall n, truthy (dec_err n) = negb (n =? 0)%N) ->
+  forall h c w mo,
+  do_render_status nfkd (qinfo16 code_of dec_err dec_res dec_info (Q.run h Q.init)) c w = Finished mo ->
+  exists j, QI.job_at (Q.run h Q.init) (Q.JName (code_of (render_jobid c w))) = Some j /\ Q.j_done j = true /\
+            Q.err_truthy (Q.j_err j) = false.
+Proof. exact finished_only_if16. Qed.
+Print Assumptions C19_finished_only_if_queue.
+
+(* how the outcome gets there: after ANY queue history in which the render job is present and not done, rpc_qfinish by an
+   idle connection makes the status `failed` with that error (truthy error) or `finished` (no / falsy error); rpc_qkill
+   makes it `failed` with "killed" (code 2) *)
+Theorem C19_status_after_finish :
+  forall (nfkd : str -> str) (code_of : str -> N) (dec_err dec_res dec_info : N -> pyval),
+  (forall n, truthy (dec_err n) = negb (n =? 0)%N) ->
+  forall h cn c w res e j, known w ->
+    let s := Q.run h Q.init in
+    let i := Q.JName (code_of (render_jobid c w)) in
+    Q.is_idle cn s = true -> QI.job_at s i = Some j -> Q.j_done j = false ->
+    let s' := Q.run (h ++ [Q.Finish cn i res e]) Q.init in
+    let resp := do_render_status nfkd (qinfo16 code_of dec_err dec_res dec_info s') c w in
+    if Q.err_truthy e then exists n, e = Q.EStr n /\ resp = Failed (dec_err n)
+    else finished_or_malformed resp (qinfo16 code_of dec_err dec_res dec_info s' (render_jobid c w)).
+Proof. exact status_after_finish. Qed.
+Print Assumptions C19_status_after_finish.
+
+Theorem C19_status_after_kill :
+  forall (nfkd : str -> str) (code_of : str -> N) (dec_err dec_res dec_info : N -> pyval),
+  (forall n, truthy (dec_err n) = negb (n =? 0)%N) ->
+  forall h cn c w j, known w ->
+    let s := Q.run h Q.init in
+    let i := Q.JName (code_of (render_jobid c w)) in
+    Q.is_idle cn s = true -> QI.job_at s i = Some j -> Q.j_done j = false ->
+    do_render_status nfkd (qinfo16 code_of dec_err dec_res dec_info (Q.run (h ++ [Q.Kill cn [i]]) Q.init)) c w = Failed (dec_err 2%N).
+Proof. exact status_after_kill. Qed.
+Print Assumptions C19_status_after_kill.
+
 (* Non-vacuity. (1) the NFKD hypothesis is satisfiable; (2) a concrete history: render job of "rl" pushed,
    pulled, finished with a result: finished, with the header of the Motörhead test case (nfkd tabulated). *)
 Example C19_example_hypothesis : exists nfkd : str -> str, forall s, noctl s -> noctl (nfkd s).
@@ -138,3 +220,18 @@ Example C19_example_history :
   do_render_status nfkd (qinfo_of (run ops)) c [111;100;102]%N = Progress (VDict []).
 Proof. vm_compute. repeat split. discriminate. Qed.
 Print Assumptions C19_example_history.
+
+(* (3) the queue-model hypotheses are satisfiable: a history with a failed, a killed and a queued job and an absent one;
+   and a decoding with exactly code 0 falsy exists *)
+Example C19_example_queue :
+  let s := Q.run ex_ops Q.init in
+  option_map (fun j => (Q.j_done j, Q.j_err j)) (QI.job_at s (Q.JName 7%N)) = Some (true, Q.EStr 5%N) /\
+  option_map (fun j => (Q.j_done j, Q.j_err j)) (QI.job_at s (Q.JName 8%N)) = Some (true, Q.e_killed) /\
+  option_map (fun j => (Q.j_done j, Q.j_err j)) (QI.job_at s (Q.JName 9%N)) = Some (false, Q.ENone) /\
+  QI.job_at s (Q.JName 10%N) = None.
+Proof. exact ex_ops_states. Qed.
+Print Assumptions C19_example_queue.
+
+Example C19_example_decoding : exists dec_err : N -> pyval, forall n, truthy (dec_err n) = negb (n =? 0)%N.
+Proof. exact ex_decoding. Qed.
+Print Assumptions C19_example_decoding.
